@@ -160,8 +160,8 @@ def tilt_slot_agreement(chk, repo, clause):
                 if isinstance(t, Poly) and t.single_atom() == tilt_atom:
                     full = True
                 for a in nf.value_atoms(t):
-                    if a[0] == 'idx' and a[1] == tilt_atom and isinstance(a[2], Slice):
-                        full = True
+                    if a[0] == 'idx' and a[1] == tilt_atom and isinstance(a[2], Slice) and a[2].hi == nf.NONE:
+                        full = True      # an open-ended slice reaches every later entry of the segment
                 if not full:
                     reads_all = False
                     detail = f'reader passes tilt={fmt(t)} (a single entry per segment)'
@@ -407,6 +407,15 @@ class Remap:
     def ob(self, clause, *a, **k):
         if clause in self._map:
             return self._chk.ob(self._map[clause], *a, **k)
+
+    def undecided(self, clause, *a, **k):
+        if clause in self._map:
+            return self._chk.undecided(self._map[clause], *a, **k)
+
+    def guard(self, clauses, construct, role='rule applicable'):
+        cl = [clauses] if isinstance(clauses, str) else list(clauses)
+        mapped = [self._map[c] for c in cl if c in self._map]
+        return self._chk.guard(mapped or [next(iter(self._map.values()))], construct, role)
 
     def clause(self, *a, **k):
         pass
